@@ -170,7 +170,11 @@ func c01Gen(r *Rand, tier string, i int) Scenario {
 	sc.Compress = PickOf(r, "", "", "", "gz", "gzip", "zst")
 	max := 256 * 1024
 	if tier == "quick" {
-		max = 128 * 1024
+		max = 96 * 1024
+	}
+	// keep the number of framed messages (and so the run time) bounded
+	if lim := sc.Cfg.MLL * 1500; lim < max {
+		max = lim
 	}
 	sc.Content, sc.Desc = genC01Content(r, sc.Cfg.MLL, max)
 	if r.Bool(0.65) {
